@@ -95,3 +95,29 @@ Theorem C08_qrtU_refines (K : fieldType) (m n : nat) (A : seq (mx K)) (Q0 R0 Rin
   = qrtM [seq mx_of m n a | a <- A] (mx_of m n Q0) (mx_of n n R0) (mx_of n n Rinv).
 Proof. exact: qrtU_refines. Qed.
 Print Assumptions C08_qrtU_refines.
+
+(* ---- symmetric eigenvalue decomposition, DISTINCT eigenvalues of the base matrix (algorithms.py _eigh1; Eigh.v follows its steps:
+   truncated triple product, S = -dG/2, K, diagonal part, Hadamard product with H): for every D the coefficients computed satisfy
+   Q(t)^T Q(t) = I and Q(t)^T A(t) Q(t) = Lambda(t) modulo t^D with Lambda(t) diagonal -- all sizes, every field with 2 != 0;
+   the executable kernel run by the correspondence check refines the mathcomp instance. *)
+From AlgoV Require Import Eigh EighSpec EighRefine.
+Theorem C08_eighM_spec (K : fieldType) (n : nat) : (2%:R : K) != 0 ->
+  forall (A : seq 'M[K]_n) (Q0 L0 H : 'M[K]_n),
+  Q0^T *m Q0 = 1%:M -> is_diagM L0 -> Q0^T *m A`_0 *m Q0 = L0 ->
+  (forall d, (d < size A)%N -> (A`_d)^T = A`_d) ->
+  (forall i j, i != j -> H i j * (L0 j j - L0 i i) = 1) -> (forall i, H i i = 0) ->
+  let QL := eighM A Q0 L0 H in
+  forall d, (d < size A)%N ->
+  \sum_(c < d.+1) ((nth (0, 0) QL c).1)^T *m (nth (0, 0) QL (d - c)).1 = (d == 0%N)%:R%:M /\
+  \sum_(i < d.+1) \sum_(j < (d - i).+1) ((nth (0, 0) QL i).1)^T *m A`_j *m (nth (0, 0) QL (d - i - j)).1
+    = (nth (0, 0) QL d).2 /\
+  is_diagM (nth (0, 0) QL d).2.
+Proof. move=> c2 A Q0 L0 H; exact: (eighM_spec c2). Qed.
+Print Assumptions C08_eighM_spec.
+Theorem C08_eighM_size (K : fieldType) (n : nat) (A : seq 'M[K]_n) (Q0 L0 H : 'M[K]_n) : size (eighM A Q0 L0 H) = size A.
+Proof. exact: eighM_size. Qed.
+Theorem C08_eighU_refines (K : fieldType) (n : nat) (A : seq (mx K)) (Q0 L0 H : mx K) :
+  [seq (mx_of n n p.1, mx_of n n p.2) | p <- eighU n A Q0 L0 H]
+  = eighM [seq mx_of n n a | a <- A] (mx_of n n Q0) (mx_of n n L0) (mx_of n n H).
+Proof. exact: eighU_refines. Qed.
+Print Assumptions C08_eighU_refines.
